@@ -377,6 +377,9 @@ def translate_rankscore(path, wanted, module):
 #        | e if c else e | Fraction(e, e) | len(e) | sum(e.values()) | votelib.util.sorted_votes(e) | range(e) | max/min(e, e)
 #        | e[:e] | [e, ..] | [e for x in e if c] | frozenset(e for x in e for y in e ..) | list(sorted(S, key=f)) (order dropped)
 #        | f(e, ..) for a translated function of the unit or a function-typed name | p.evaluate(votes[, prev_gains=prev_gains])
+#        | {k: e for x in e} | d.values() | d.get(k, e) | d[k] (k a key of d) | frozenset(l)
+#        | c.attr / c.meth() for a candidate c and a declared observer ('obs:attr' parameter: the attribute as a function)
+#        | x is (not) None as the test of an if statement, for a parameter declared optional
 #  Anything else raises Unsupported naming the node: the definition is marked failed (fail closed).
 T_Z, T_Q, T_B, T_C = 'Z', 'Q', 'B', 'C'
 
@@ -512,6 +515,23 @@ class TX:
             die(e, 'constant')
         if self.ref(e) is not None:
             return self.lookup(e, env)
+        if isinstance(e, ast.Attribute) and ('obs:' + e.attr) in env:
+            v = self.expr(e.value, env)
+            f = env['obs:' + e.attr]
+            if f[1][0] == 'F' and f[1][1] == (v[1],):
+                return '(%s %s)' % (f[0], v[0]), f[1][2]
+            die(e, 'observer %s of a %s' % (e.attr, v[1]))
+        if isinstance(e, ast.DictComp):
+            # {k: v for t in it}: dict(pairs) - a later pair with an equal key replaces the value in place (py_dict_c / py_dict_z)
+            if len(e.generators) != 1 or e.generators[0].ifs or e.generators[0].is_async:
+                die(e, 'dictionary comprehension form')
+            g = e.generators[0]
+            it, ety = self.iterable(g.iter, env)
+            env2, pre = self.bind_target(g.target, 'it_', ety, env, e)
+            k, v = self.expr(e.key, env2), self.expr(e.value, env2)
+            if k[1] not in (T_C, T_Z):
+                die(e, 'dictionary keyed by a %s' % (k[1],))
+            return '(py_dict_%s (map (fun it_ => %s(%s, %s)) %s))' % ('c' if k[1] == T_C else 'z', pre, k[0], v[0], it), TL(TP(k[1], v[1]))
         if isinstance(e, ast.BinOp):
             a, b = self.expr(e.left, env), self.expr(e.right, env)
             if isinstance(e.op, ast.Add) and a[1][0] == 'L' and a[1] == b[1]:
@@ -570,6 +590,20 @@ class TX:
                 a, n = self.expr(e.value, env), self.expr(sl.upper, env)
                 if a[1][0] == 'L' and n[1] == T_Z:
                     return '(py_slice_to %s %s)' % (a[0], n[0]), a[1]
+            if not isinstance(sl, ast.Slice):
+                a, k = self.expr(e.value, env), self.expr(sl, env)
+                if a[1][0] == 'L' and a[1][1][0] == 'P' and a[1][1][1] == k[1] and k[1] in (T_C, T_Z):
+                    vt = a[1][1][2]
+                    if vt[0] in ('L', 'S'):
+                        dflt = '[]'
+                    elif vt == T_Z:
+                        dflt = '0%Z'
+                    elif vt == T_Q:
+                        dflt = '0%Q'
+                    else:
+                        die(e, 'subscript of a dictionary of %s' % (vt,))
+                    # d[k] with k a key of d (KeyError otherwise: a side condition, like b <> 0 for py_frac)
+                    return '(py_getitem_%s %s %s %s)' % ('c' if k[1] == T_C else 'z', a[0], k[0], dflt), vt
             die(e, 'subscript')
         if isinstance(e, ast.List):
             if not e.elts:
@@ -725,9 +759,30 @@ class TX:
                 self.notes.append('sorted(..) at line %d translated as a permutation (order dropped, result compared as a set)' % e.lineno)
                 return a[0], TS(a[1][1])
             die(e, 'sorted of a %s' % (a[1],))
+        if isinstance(fn, ast.Attribute) and ('obs:' + fn.attr) in env and not args and not kw:
+            v = self.expr(fn.value, env)
+            f = env['obs:' + fn.attr]
+            if f[1][0] == 'F' and f[1][1] == (v[1],):
+                return '(%s %s)' % (f[0], v[0]), f[1][2]
+            die(e, 'observer %s of a %s' % (fn.attr, v[1]))
+        if isinstance(fn, ast.Attribute) and fn.attr == 'values' and not args and not kw:
+            a = self.expr(fn.value, env)
+            if a[1][0] == 'L' and a[1][1][0] == 'P':
+                return '(map snd %s)' % a[0], TL(a[1][1][2])
+            die(e, 'values of a %s' % (a[1],))
+        if isinstance(fn, ast.Attribute) and fn.attr == 'get' and len(args) == 2 and not kw:
+            a, k, dv = self.expr(fn.value, env), self.expr(args[0], env), self.expr(args[1], env)
+            if a[1][0] == 'L' and a[1][1][0] == 'P' and a[1][1][1] == k[1] and k[1] in (T_C, T_Z) and a[1][1][2] == dv[1]:
+                return '(py_get_%s %s %s %s)' % ('c' if k[1] == T_C else 'z', a[0], k[0], dv[0]), dv[1]
+            die(e, 'get on a %s with a %s key and a %s default' % (a[1], k[1], dv[1]))
+        if name in ('frozenset', 'set') and len(args) == 1 and not kw and not isinstance(args[0], ast.GeneratorExp):
+            a = self.expr(args[0], env)
+            if a[1][0] in ('L', 'S'):
+                return a[0], TS(a[1][1])
+            die(e, 'set of a %s' % (a[1],))
         # selector.evaluate(votes[, prev_gains=prev_gains])
-        if isinstance(fn, ast.Attribute) and fn.attr == 'evaluate' and self.ref(fn.value) is not None:
-            f = self.lookup(fn.value, env)
+        if isinstance(fn, ast.Attribute) and fn.attr == 'evaluate':
+            f = self.expr(fn.value, env)
             if f[1] == T_SEL and len(args) == 1 and set(kw) <= {'prev_gains'}:
                 v = self.expr(args[0], env)
                 if v[1] != VOTES:
@@ -1204,6 +1259,9 @@ def translate_typed(path, defs, module):
                 if r.startswith('@'):
                     positional.append((cn, r, ty))
                     continue
+                if r.startswith('obs:'):
+                    env[r] = (cn, ty)          # attribute / zero-argument method of a candidate object, as a function
+                    continue
                 if not r.startswith('self.') and r not in pyparams:
                     die(fd, 'no parameter %s' % r)
                 env[r] = (cn, ty)
@@ -1313,6 +1371,10 @@ TYPED_JOBS = [
              params=[P_THR, P_AE, ('total', '@local0', T_Q), ('n_votes', '@target1', T_Q)]),
         dict(name='RelativeThreshold_evaluate', cls='RelativeThreshold', fn='evaluate', kind='body',
              params=[P_THR, P_AE, ('votes', 'votes', VOTES)]),
+        dict(name='CoalitionMemberBracketer_evaluate', cls='CoalitionMemberBracketer', fn='evaluate', kind='body',
+             params=[('evaluators', 'self.evaluators', TL(TP(T_Z, T_SEL))), ('default', 'self.default', T_SEL),
+                     ('is_coalition', 'obs:is_coalition', TFUN([T_C], T_B)),
+                     ('get_n_coalition_members', 'obs:get_n_coalition_members', TFUN([T_C], T_Z)), ('votes', 'votes', VOTES)]),
         dict(name='AlternativeThresholds_evaluate', cls='AlternativeThresholds', fn='evaluate', kind='body',
              params=[('partials', 'self.partials', TL(T_SEL)), ('votes', 'votes', VOTES), ('prev_gains', 'prev_gains', T_PG)],
              ret=TS(T_C)),
